@@ -14,17 +14,18 @@ MANIFEST = dict(
          "crossbeam's contract): inductive invariant (conservation multiset, Quit/Work separation, counter "
          "bookkeeping); all workers exited and no Quit answer => visited is a permutation of the entries reachable "
          "under Skip answers; NoDup visited always; variant (explicit nat measure strictly decreasing on every step "
-         "that is not an idle spin of the wait loop) and progress (in every reachable non-final state some worker "
-         "reaches a measure-decreasing step by itself). Tie to the code: the real worker threads are serialised by a "
-         "deterministic scheduler through cfg(ripgrep_verif) yield hooks (uniform, PCT, preemption-bounded "
+         "that is not an idle spin of the wait loop), progress (in every reachable non-final state some worker "
+         "reaches a measure-decreasing step by itself) and termination under fairness (no infinite execution in which "
+         "every live worker keeps being scheduled and steals on non-empty deques fail only finitely often). Tie to the code: the real worker threads are serialised by a "
+         "deterministic scheduler through cfg(ripgrep_verif) yield hooks (uniform, sticky, hold-back-before-one-action, PCT, preemption-bounded "
          "exhaustive schedules; visitor Quit injected at every visit index) and every recorded trace is replayed "
          "through the extracted step relation, every observation (received message, counter, flag, deque lengths, "
          "visitor calls) compared; independent oracle for the visited set; real-thread soak.",
     note="PARTIAL in this sense: atomics are modelled as sequentially consistent single steps (code: Acquire/Release "
          "on the counter, SeqCst on the flag), crossbeam-deque 0.8.5 is assumed linearizable and element-conserving "
          "(its batch choice is nondeterministic in the model), preemption inside a crossbeam operation is covered only "
-         "by that assumption and the soak; termination is proved as variant + progress (termination under a fair "
-         "scheduler), fairness of the OS scheduler and of steal retries is assumed",
+         "by that assumption and the soak; termination is proved for every fair execution; fairness of the OS "
+         "scheduler and finiteness of steal retries are the assumptions",
     technique="Coq invariant/variant proof over a transition system + deterministic-scheduler trace replay against "
               "the extracted step relation + visited-set oracle + real-thread soak",
     design="§7 C07, A.4")
